@@ -1035,6 +1035,8 @@ class Interp:
             if attr == "value":
                 return obj
             return ("method", obj, attr)
+        if isinstance(obj, float) and attr == "astype":
+            return ("method", obj, attr)
         raise AnalysisError(f"absint: attribute {attr} of {obj!r} at {mod.rel}:{node.lineno}")
 
     def subscript(self, obj, slc, env, mod, node):
@@ -1316,6 +1318,13 @@ class Interp:
             raise AnalysisError(f"absint: list method {attr} at {mod.rel}:{e.lineno}")
         if isinstance(obj, int) and not isinstance(obj, bool) and attr == "bit_length" and not args:
             return obj.bit_length()
+        if isinstance(obj, (int, float)) and not isinstance(obj, bool) and attr == "astype" and len(args) == 1 and not kwargs and isinstance(e.args[0], (ast.Attribute, ast.Name)):
+            # numpy scalar conversion `x.astype(np.int64)` / `.astype(int)` / `.astype(np.float32)` on a concrete number
+            tname = e.args[0].attr if isinstance(e.args[0], ast.Attribute) else e.args[0].id
+            if tname.startswith(("int", "uint")):
+                return int(obj)
+            if tname.startswith(("float", "double")):
+                return float(obj)
         if isinstance(obj, str):
             if attr == "format":
                 if all(isinstance(a, (int, str, float)) for a in args):
